@@ -125,6 +125,8 @@ def generate(con, index=None, live=None, canary=False):
     except Exception as e:  # noqa  -- an engine defect on unforeseen syntax must degrade to "undecided", never to an alarm
         rep.status, rep.reason = "undecided", f"engine failure {type(e).__name__}: {e} @ {traceback.format_exc().splitlines()[-3].strip()[:120]}"
         rep.obligations = [ob for ob in rep.obligations]
+        if os.environ.get("VERIF_TRACE"):
+            traceback.print_exc()
     if unsupported and rep.status == "ok":
         rep.status = "undecided"
         rep.reason = f"Unsupported on {len(unsupported)} of {rep.paths} paths: {unsupported[0]}"
